@@ -541,14 +541,10 @@ func (t *ZeroAllocTokenizer) TokenizeHtmlPreserving() ([]Token, error) {
 			} else {
 				// Process variable tags with optimized tokenization
 				if len(tagContent) > 0 {
-					if !strings.ContainsAny(tagContent, ".|[](){}\"',+-*/=!<>%&^~") {
-						// Simple variable name
-						identifier := t.GetStringConstant(tagContent)
-						t.AddToken(TOKEN_NAME, identifier, t.line)
-					} else {
-						// Complex expression
-						t.TokenizeExpression(tagContent)
-					}
+					// Always tokenize the content as an expression: content without
+					// punctuation can still be a number, a keyword operator
+					// expression (a and b, not x, x is odd) or a conditional
+					t.TokenizeExpression(tagContent)
 				}
 			}
 		}
@@ -1248,15 +1244,9 @@ func (t *ZeroAllocTokenizer) TokenizeOptimized() ([]Token, error) {
 			} else {
 				// Process variable tags using optimized tokenization
 				if len(tagContent) > 0 {
-					// Check if it's a simple variable or a complex expression
-					if !strings.ContainsAny(tagContent, ".|[](){}\"',+-*/=!<>%&^~") {
-						// Simple variable name - use string interning for efficiency
-						identifier := Intern(tagContent)
-						t.AddToken(TOKEN_NAME, identifier, t.line)
-					} else {
-						// Complex expression - tokenize fully
-						t.TokenizeExpression(tagContent)
-					}
+					// Always tokenize the content as an expression (see
+					// TokenizeHtmlPreserving)
+					t.TokenizeExpression(tagContent)
 				}
 			}
 		}
